@@ -65,8 +65,10 @@ CHECKS = {
             "concretising mode: every atom table of 2-3 (quick) / 2-4 atoms whose chain id, residue number, insertion code and serial range over "
             "values on both sides of each PDB limit is a model of one z3 formula, enumerated completely by AllSAT; the real parse_cif_atoms -> "
             "can_write_pdb / fit_to_pdb -> write_pdb -> parse_pdb_atoms pipeline (real pandas, real mmcif) runs on each and an independent oracle "
-            "checks limits, unchanged atoms, one-to-one grouping-preserving renaming, unchanged-if-fitting and the write/read-back. Partial: the "
-            "refusal half needs tables beyond any bound",
+            "checks limits, unchanged atoms, one-to-one grouping-preserving renaming, unchanged-if-fitting and the write/read-back. A second "
+            "formula enumerates tables at the refusal limits (61-64 chains, 9 998-10 001 residues in a chain, 99 996-99 998 atoms with contiguous "
+            "or alternating chains): must fit / must refuse / either. Counterexamples are replayed alone and after every 2-atom table as "
+            "predecessor (state kept between calls). Partial",
             "pandas cannot be executed on proxies: the solver contributes exhaustive coverage of the bounded table space, the code runs natively",
             "z3 AllSAT over the input formula + native execution with independent oracle", "5/C10"),
     "C11": ("E2", MC,
@@ -123,14 +125,17 @@ CHECKS = {
     "C09": ("E2", MC,
             "symbolic atom fields go through the real parse_pdb_atoms, write_pdb/_format_pdb_atom_line, write_cif row mapping and parse_cif_atoms; "
             "per path z3 decides: fields read == fields written, every ATOM/HETATM/TER line is 80 columns with each slice equal to its field, "
-            "MODEL/ENDMDL around every model and TER after every chain, and the cross paths keep every field. Partial: text / record layer",
+            "MODEL/ENDMDL around every model and TER after every chain, and the cross paths keep every field (also for a row selection of a "
+            "parsed table). Concretising complement: tables of up to 2 x 900 atoms (z3 AllSAT over atoms / models / chains / route) through the "
+            "real pandas and the real mmcif writer. Partial: text / record layer",
             "pandas replaced by a record-level stand-in and io.StringIO / IoAdapterPy by stubs (their contracts are assumptions); numeric text from "
             "boundary tables; a chain's last atom never has serial 99999 (the TER serial would not fit)",
             "symbolic execution on bounded-string proxies (own engine) + z3", "5/C09"),
     "C15": ("E2", MC,
             "one symbolic ATOM/HETATM line through parser.parse_pdb and parser_v2.parse_pdb_atoms, one atom_site row through parser.parse_cif and "
             "parser_v2.parse_cif_atoms: per path z3 decides that chain, number, insertion code, names, coordinates and model agree; both "
-            "is_connected implementations on the same symbolic O3'/P coordinates equal distance < 2.4 A. Partial",
+            "is_connected implementations on the same symbolic O3'/P coordinates equal distance < 2.4 A (1e-6 band) and agree with each other exactly "
+            "(thresholds as the exact rationals of the doubles the code computes). Partial",
             "pandas stand-in, adapter stub; residue grouping by pandas groupby and torsion magnitudes (C18) outside; chain ids non-blank",
             "symbolic execution on bounded-string / real proxies (own engine) + z3", "5/C15"),
     "C20": ("E2", MC,
